@@ -20,6 +20,7 @@ pub struct Solver {
     /// everything sent per open scope, so a hung solver can be killed and the context rebuilt
     frames: Vec<String>,
     pub restarts: u64,
+    marker: u64,
     pub queries: u64,
     pub sat: u64,
     pub unsat: u64,
@@ -79,7 +80,7 @@ impl Solver {
     pub fn new(binary: &str, timeout_ms: u64) -> Solver {
         let (child, inp, out) = Solver::spawn(binary, timeout_ms);
         let log = std::env::var("SYMX_SMT_LOG").ok().map(|p| std::fs::File::create(p).unwrap());
-        let mut s = Solver { child, inp, out, frames: vec![String::new()], restarts: 0, queries: 0, sat: 0, unsat: 0, unknown: 0, time_s: 0.0, errors: vec![], binary: binary.to_string(), timeout_ms, log };
+        let mut s = Solver { child, inp, out, frames: vec![String::new()], restarts: 0, marker: 0, queries: 0, sat: 0, unsat: 0, unknown: 0, time_s: 0.0, errors: vec![], binary: binary.to_string(), timeout_ms, log };
         let p = s.preamble();
         s.raw(&p);
         s
@@ -146,6 +147,15 @@ impl Solver {
             }
         }
     }
+    /// Forget everything and start a new top-level context.  Used once per explored run: z3 4.8.12 was
+    /// observed to answer `unsat` on satisfiable flip queries after several hundred run-level push/pop
+    /// cycles in one process (the same session with a `(reset)` per run, and z3 5.1, give the right answers).
+    pub fn reset_context(&mut self) {
+        self.raw("(reset)\n");
+        self.frames = vec![String::new()];
+        let p = self.preamble();
+        self.raw(&p);
+    }
     pub fn push(&mut self) {
         self.raw("(push 1)\n");
         self.frames.push(String::new());
@@ -154,33 +164,57 @@ impl Solver {
         self.raw("(pop 1)\n");
         self.frames.pop();
     }
+    /// read the solver's output up to the echo marker that follows a command; keeps the stream in step
+    /// whatever the solver printed in between (answers, `(error ...)` lines, nothing at all)
+    fn until_marker(&mut self) -> Vec<String> {
+        self.marker += 1;
+        let m = format!("<<{}>>", self.marker);
+        self.raw(&format!("(echo \"{}\")\n", m));
+        let mut got = vec![];
+        loop {
+            let l = self.line();
+            if l.contains(&m) {
+                return got;
+            }
+            if l.starts_with("timeout (solver killed") || l.contains("solver exited") {
+                got.push(l);
+                return got; // the process was replaced: nothing more will come
+            }
+            if !l.is_empty() {
+                got.push(l);
+            }
+        }
+    }
     pub fn check(&mut self, nvars: usize) -> Answer {
         let t0 = std::time::Instant::now();
         self.queries += 1;
         self.raw("(check-sat)\n");
-        let r = self.line();
-        let ans = if r == "sat" {
-            if nvars == 0 {
-                Answer::Sat(vec![])
-            } else {
-                let names: Vec<String> = (0..nvars).map(|i| format!("x{}", i)).collect();
-                self.raw(&format!("(get-value ({}))\n", names.join(" ")));
-                let txt = self.sexp();
-                match parse_values(&txt, nvars) {
-                    Some(m) => Answer::Sat(m),
-                    None => {
-                        self.errors.push(format!("unparsable model: {}", txt));
-                        Answer::Unknown(format!("unparsable model: {}", txt))
+        let lines = self.until_marker();
+        let verdict = lines.iter().find(|l| *l == "sat" || *l == "unsat" || *l == "unknown").cloned();
+        for l in &lines {
+            // `canceled` / `timeout` are how z3 reports its own time limit
+            if l.contains("(error") && !l.contains("canceled") && !l.contains("timeout") {
+                self.errors.push(l.clone());
+            }
+        }
+        let ans = match verdict.as_deref() {
+            Some("sat") => {
+                if nvars == 0 {
+                    Answer::Sat(vec![])
+                } else {
+                    let names: Vec<String> = (0..nvars).map(|i| format!("x{}", i)).collect();
+                    self.raw(&format!("(get-value ({}))\n", names.join(" ")));
+                    let txt = self.until_marker().join(" ");
+                    match parse_values(&txt, nvars) {
+                        Some(m) => Answer::Sat(m),
+                        // a model that cannot be read (time limit hit while printing it) is an undecided query
+                        None => Answer::Unknown(format!("no model: {}", &txt[..txt.len().min(120)])),
                     }
                 }
             }
-        } else if r == "unsat" {
-            Answer::Unsat
-        } else {
-            if r.contains("error") && !r.contains("solver exited") {
-                self.errors.push(r.clone());
-            }
-            Answer::Unknown(r)
+            Some("unsat") => Answer::Unsat,
+            Some(_) => Answer::Unknown("unknown".into()),
+            None => Answer::Unknown(lines.join(" | ")),
         };
         match ans {
             Answer::Sat(_) => self.sat += 1,
@@ -459,6 +493,11 @@ pub fn inline_path_condition(a: &Arena, upto: usize) -> Option<String> {
 
 /// conjunction of (condition, polarity) literals as a self-contained formula
 pub fn inline_conjunction(a: &Arena, conj: &[(u32, bool)]) -> Option<String> {
+    inline_query(a, conj, &[])
+}
+
+/// conjunction of the literals and, if `refute` is non-empty, of "not all of `refute` hold"
+pub fn inline_query(a: &Arena, conj: &[(u32, bool)], refute: &[u32]) -> Option<String> {
     use std::collections::BTreeSet;
     let mut need: BTreeSet<u32> = BTreeSet::new();
     fn collect_t(a: &Arena, t: u32, need: &mut BTreeSet<u32>) -> bool {
@@ -506,8 +545,17 @@ pub fn inline_conjunction(a: &Arena, conj: &[(u32, bool)]) -> Option<String> {
             return None;
         }
     }
+    for c in refute {
+        if !collect_b(a, *c, &mut need) {
+            return None;
+        }
+    }
     let lits: Vec<String> = conj.iter().map(|(c, o)| if *o { bexpr(a, *c) } else { format!("(not {})", bexpr(a, *c)) }).collect();
     let mut body = format!("(and true {})", lits.join(" "));
+    if !refute.is_empty() {
+        let obs: Vec<String> = refute.iter().map(|c| bexpr(a, *c)).collect();
+        body = format!("(and {} (not (and true {})))", body, obs.join(" "));
+    }
     // ids grow with creation, so descending order nests definitions inside out
     for &t in need.iter().rev() {
         let e = match a.terms[t as usize].t {
